@@ -398,7 +398,8 @@ def all_steps(n):
 
 
 def shards(tier, seed):
-    out = []
+    out = [{'name': 'race', 'what': 'race', 'cons': None,
+            'race_reps': 2 if tier == 'quick' else 20, **LIMITS[tier]}]
     for c in CONSTRUCTIONS:
         out.append({'name': c[0], 'cons': c[0], **LIMITS[tier]})
         if tier == 'thorough' and c[3] != 'disk':
@@ -408,6 +409,11 @@ def shards(tier, seed):
 
 
 def run_shard(spec, res):
+    if spec.get('what') == 'race':
+        # two consumers that get "the same" example of a cold cache at the same
+        # time each get their own object (machinery of C10)
+        from . import c10
+        return c10.run_race(spec, res)
     ld = import_lazy_dataset()
     cons = next(c for c in CONSTRUCTIONS if c[0] == spec['cons'])
     rng = rng_for(spec['seed'], PROPERTY, spec['name'])
